@@ -159,3 +159,31 @@ def entry_points_reaching(prog, cg, names, target):
             roots.add(p.split("::")[-1])
         work.extend(cs)
     return roots
+
+
+def effective_writers(prog, cg, fa, names, adt, field, anchors, readers=False):
+    """Who stores to adt.field, named at the level the property talks about: a direct writer whose (short) name is
+    one of `anchors` counts as itself; any other function (an extracted private helper, a closure, a renamed private
+    function) is replaced by its callers, upwards, until an anchor or an API entry point (public Emulator method /
+    CPU-bus method) is reached.  Returns the set of short names where the ascent stopped."""
+    entries = api_entry_points(prog, names)
+    acc = fa.readers(adt, field) if readers else fa.writers(adt, field)
+    out = set()
+    seen = set()
+    work = [strip_closure(p) for p in acc]
+    while work:
+        p = work.pop()
+        if p in seen:
+            continue
+        seen.add(p)
+        short = p.split("::")[-1]
+        if short in anchors or p in entries:
+            out.add(short)
+            continue
+        cs = [strip_closure(s_.fn.path) for s_ in cg.callers_of(p)]
+        cs = [c for c in cs if c != p]
+        if not cs:
+            out.add(short)
+            continue
+        work.extend(cs)
+    return out
